@@ -43,6 +43,27 @@ pub mod scope_analyzer;
 pub mod statement;
 pub mod visitor;
 
+/// Verification hooks (only compiled with `--cfg boa_verif`).
+#[cfg(boa_verif)]
+pub mod verif {
+    use std::cell::Cell;
+
+    thread_local! {
+        static FORCE_ESCAPE: Cell<bool> = const { Cell::new(false) };
+    }
+
+    /// When on, every binding created by scope analysis is placed in a heap environment.
+    pub fn set_force_escape(on: bool) {
+        FORCE_ESCAPE.with(|f| f.set(on));
+    }
+
+    /// Current state of the switch.
+    #[must_use]
+    pub fn force_escape() -> bool {
+        FORCE_ESCAPE.with(Cell::get)
+    }
+}
+
 use boa_interner::{Interner, Sym, ToIndentedString, ToInternedString};
 use boa_string::{JsStr, JsString};
 use expression::Identifier;
